@@ -63,10 +63,18 @@ def call_builtin(it, name, args, kwargs):
         if is_z3(v):
             return to_real(v) if not fp else to_fp(v)
         if isinstance(v, str):
+            if v.strip().lower() in ('inf', '+inf', 'infinity') and not fp:
+                return ctx.inf()
+            if v.strip().lower() in ('-inf', '-infinity') and not fp:
+                return -ctx.inf()
             try:
                 return Fraction(v) if not fp else float(v)
             except ValueError:
                 raise PyRaise('ValueError')
+        if isinstance(v, Opaque):
+            if ctx.branch(ctx.upred('float_fails', v.name)):
+                raise PyRaise('ValueError')
+            return ctx.fresh('float_of_' + v.name, RealS)
         raise Unsupported('float(%r)' % (v,))
     if name == 'int':
         v = args[0]
@@ -179,6 +187,14 @@ def call_builtin(it, name, args, kwargs):
         if isinstance(v, SObj):
             return I.ClassRef(None, v.cls)
         return Opaque('type')
+    if name == 'iter':
+        v = args[0]
+        if isinstance(v, dict):
+            return list(v.keys())
+        c = it.concrete_iter(v)
+        if c is not None:
+            return c
+        raise Unsupported('iter of symbolic')
     if name == 'callable':
         return isinstance(args[0], (Closure, BoundMethod, I.FuncRef))
     if name == 'slice':
@@ -256,7 +272,7 @@ def call_builtin(it, name, args, kwargs):
         raise Unsupported('round')
     if name == 'issubclass':
         raise Unsupported('issubclass')
-    if name in ('iter', 'next', 'map', 'divmod'):
+    if name in ('next', 'map', 'divmod'):
         raise Unsupported(name)
     raise Unsupported('builtin %s' % name)
 
@@ -279,6 +295,8 @@ def isinstance_model(it, v, t):
             nm = ty.name
         elif isinstance(ty, ExcClass):
             nm = ty.name
+        elif isinstance(ty, I.ModAttr):
+            nm = ty.attr
         else:
             raise Unsupported('isinstance type %r' % (ty,))
         res = zor(res, _isinst(it, v, nm))
@@ -433,6 +451,19 @@ def call_module(it, fv, args, kwargs):
             n = scalar_arith('-', hi, lo)
             return npm.new_arr(ctx, (n,), lambda i: scalar_arith('+', lo, i), 'int', 'arange')
         raise Unsupported('np.arange with step')
+    if name == 'broadcast_to':
+        shape = args[1]
+        if isinstance(shape, int) or is_int_term(shape):
+            shape = (shape,)
+        if isinstance(a0, SArr) and a0.ndim == 1 and isinstance(a0.n, int) and a0.n == 1 and len(shape) == 1:
+            g = npm.fz(a0)
+            return npm.new_arr(ctx, tuple(shape), lambda i: g(0), a0.dtype, 'bcast')
+        if _isnum(a0) and len(shape) == 1:
+            return npm.new_arr(ctx, tuple(shape), lambda i: a0, 'real', 'bcast')
+        if isinstance(a0, SArr) and a0.ndim == len(shape):
+            npm.shape_eq(ctx, a0.shape, tuple(shape), 'broadcast_to shape')
+            return a0
+        raise Unsupported('np.broadcast_to form')
     if name == 'isscalar':
         return not isinstance(a0, (SArr, SCompact, list, tuple, dict, SObj)) and a0 is not None
     if name == 'isinf':
@@ -497,7 +528,8 @@ def call_module(it, fv, args, kwargs):
                     r = zite(tz(i) == j, vals[j], r, fp)
                 return r
             return npm.new_arr(ctx, (len(vals),), el, dt, 'lit')
-        if _isnum(a0) and name in ('atleast_1d',):
+        if _isnum(a0):
+            # 0-d arrays are modelled as length-1 1-d arrays (same results after ravel/mask ops)
             return npm.new_arr(ctx, (1,), lambda i: a0, 'real', 'lit')
         raise Unsupported('np.%s of %r' % (name, a0))
     if name == 'linalg.norm':
